@@ -165,7 +165,7 @@ def scenarios(draw, *, max_machines=6, max_obs=4, max_nodes=6,
               modes=('roomy', 'band'), delays=False, units=False,
               adversary=False, delay_model=False, min_obs=1,
               start_gaps=(0, 0, 0, 1, 1, 2, 3, 5, 10), max_duration=6,
-              few_machines=False, piled_plans=False, overlap=False, limit_binds=False):
+              few_machines=False, piled_plans=False, overlap=False, limit_binds=False, unsorted=False):
     nm = draw(st.integers(2 if overlap else 1, 3 if few_machines else max_machines))
     hetero = draw(st.booleans())
     speeds = (1, 2, 5, 10, 20)
@@ -214,12 +214,14 @@ def scenarios(draw, *, max_machines=6, max_obs=4, max_nodes=6,
             rate = draw(st.sampled_from([1, 2, 3, 5, 10]))
             demand = draw(st.sampled_from([d for d in ((1, 2) if (overlap or limit_binds) else (1, 2, 4, 8)) if d <= arrays]))
         o = {"name": names[i], "start": t * u, "duration": duration * u, "demand": demand,
-             "rate": rate, "ingest": draw(st.integers(1, (max(1, max_ingest // 2) if overlap else max_ingest) if not limit_binds
-                                                      else draw(st.sampled_from([1, 1, 2])))),
+             "rate": rate, "ingest": draw(st.integers(1, min(max_ingest, (max(1, max_ingest // 2) if overlap else max_ingest)
+                                                                 if not limit_binds else draw(st.sampled_from([1, 1, 2]))))),
              "wf": draw(dags(max_nodes=max_nodes,
                              speeds=tuple(sorted({m['flops'] * u for m in machines})),
                              bws=tuple(sorted({m['bw'] * u for m in machines}))))}
         obs.append(o)
+    if unsorted and len(obs) > 1:
+        obs = list(draw(st.permutations(obs)))      # the plan need not list observations in start order
     # unit scaling: rates are per second; per-step rate = rate*u.  Volumes = rate*duration(seconds).
     vols = [o['rate'] * o['duration'] for o in obs]
     if mode == 'band':
@@ -289,6 +291,8 @@ def classify(sc):
         c['overlapping_obs'] = 1
     if any(iv[i + 1][0] == iv[i][1] for i in range(len(iv) - 1)):
         c['back_to_back_obs'] = 1
+    if [o['start'] for o in sc['obs']] != sorted(o['start'] for o in sc['obs']):
+        c['plan_not_in_start_order'] = 1
     if sc.get('delays'):
         c['delays'] = 1
     if sc.get('unit', 'seconds') != 'seconds':
